@@ -160,6 +160,98 @@ where
     }
 }
 
+/// The type of the literal lexer that `lex_with_lhs` entered last (None: none).
+pub(crate) static mut REC_LITERAL: Option<Type> = None;
+
+// Contracts of the leaf literal lexers on the text `!`, which is not a literal of any
+// type: an error that is not a typing error, located at the text (the literal lexers
+// themselves are C06's obligations; the errors below are the ones the real functions give
+// on `!`).  Each records the type it lexes: the literal must be lexed AS THE LEFT-HAND
+// TYPE - the "literal compatibility" clause.  The dispatch on the type
+// (`RhsValue::lex_with`, `RhsValues::lex_with`, `lex_rhs_values`) stays real.
+// (Measured: with the real Ip / Int lexers behind an unfolded tag one admissible cell
+// costs 265 - >400 s.)  `where 'i: 'i`: see above.
+pub(crate) fn i64_lex__contract<'i>(input: &str) -> LexResult<'_, i64>
+where
+    'i: 'i,
+{
+    unsafe {
+        REC_LITERAL = Some(Type::Int);
+    }
+    Err((LexErrorKind::ExpectedName("digit"), input))
+}
+
+pub(crate) fn ip_addr_lex__contract<'i>(input: &str) -> LexResult<'_, std::net::IpAddr>
+where
+    'i: 'i,
+{
+    unsafe {
+        REC_LITERAL = Some(Type::Ip);
+    }
+    Err((LexErrorKind::ExpectedName("IP address character"), input))
+}
+
+pub(crate) fn ip_range_lex__contract<'i>(input: &str) -> LexResult<'_, crate::rhs_types::IpRange>
+where
+    'i: 'i,
+{
+    unsafe {
+        REC_LITERAL = Some(Type::Ip);
+    }
+    Err((LexErrorKind::ExpectedName("IP address character"), input))
+}
+
+pub(crate) fn bytes_expr_lex__contract<'i>(input: &str) -> LexResult<'_, BytesExpr>
+where
+    'i: 'i,
+{
+    unsafe {
+        REC_LITERAL = Some(Type::Bytes);
+    }
+    Err((LexErrorKind::CountMismatch { name: "character", actual: 1, expected: 2 }, input))
+}
+
+/// Whether the `{...}` set lexer was entered.
+pub(crate) static mut REC_SET: bool = false;
+
+/// Contract of `types::lex_rhs_values::<T>` on a text that does not start with `{`:
+/// `Err((ExpectedLiteral("{"), input))`.  The dispatch from the left-hand type to `T`
+/// (`RhsValues::lex_with`) stays real.  (Measured: the real loop, its `Vec<T>` and their
+/// drop glue behind unfolded tags make the `in` cell cost ~380 s.)
+pub(crate) fn lex_rhs_values__contract<'i, T: Lex<'i>>(input: &'i str) -> LexResult<'i, Vec<T>> {
+    unsafe {
+        REC_SET = true;
+    }
+    Err((LexErrorKind::ExpectedLiteral("{"), input))
+}
+
+/// What the stubbed list-name lexer does: false = the text does not start with `$`
+/// (`Err(ExpectedLiteral("$"))`, what the real one gives on such a text), true = the
+/// text is `$x...` (`Ok(("x", rest after 2 bytes))`).
+pub(crate) static mut LIST_NAME_PRESENT: bool = false;
+
+/// Contract of `<ListName as Lex>::lex` for those two texts (the real one is C17's
+/// business).
+pub(crate) fn list_name_lex__contract<'i>(input: &str) -> LexResult<'_, ListName>
+where
+    'i: 'i,
+{
+    if unsafe { LIST_NAME_PRESENT } {
+        Ok((ListName::from(String::from("x")), &input[2..]))
+    } else {
+        Err((LexErrorKind::ExpectedLiteral("$"), input))
+    }
+}
+
+/// Contract of `Scheme::get_list` for the schemes built here, which register no list:
+/// no list for any type.  (The real one is a `HashMap` lookup, out of CBMC's reach.)
+pub(crate) fn scheme_get_list__no_lists<'s, 'a>(_this: &'a Scheme, _ty: &Type) -> Option<crate::scheme::ListRef<'a>>
+where
+    's: 's,
+{
+    None
+}
+
 #[derive(Clone, Copy, PartialEq, Eq)]
 enum Outcome {
     /// Ok(IsTrue) with the whole input left
@@ -220,16 +312,24 @@ fn outcome(input: &'static str, op: Option<(ComparisonOp, usize)>, scheme: &Sche
 /// 80-130 s, almost all of it the drop glue of the left-hand side on the error path,
 /// which CBMC explores through the function-call variant of `IdentifierExpr`; a
 /// symbolic operator covering a whole row did not finish in 500 s).
-/// The text is ` ~ !`: the contract stub of the operator lexer consumes the one-byte
-/// operator and hands over `$op` - the spelling itself is (A)'s business.
+/// The text is ` ~ !`: the contract stub of the operator lexer consumes the one-byte operator and
+/// hands over `$op` - the spelling itself is (A)'s business.  `$literal` is the type of
+/// the literal the operator takes per the table (None: not a typed literal).
 macro_rules! cell {
-    ($name:ident, $decl:expr, $each:expr, $eff:expr, $op:expr, $admissible:expr) => {
+    ($name:ident, $decl:expr, $each:expr, $eff:expr, $op:expr, $admissible:expr, $literal:expr) => {
         #[kani::proof]
         #[kani::unwind(4)]
         #[kani::solver(minisat)]
         #[kani::stub(crate::rhs_types::regex::Regex::new, crate::ast::field_expr::verif_kani::c04::regex_new__must_not_be_reached)]
         #[kani::stub(std::mem::drop, crate::ast::field_expr::verif_kani::c04::mem_drop__leak)]
         #[kani::stub(<crate::ast::field_expr::ComparisonOp as crate::lex::Lex>::lex, crate::ast::field_expr::verif_kani::c04::comparison_op_lex__contract)]
+        #[kani::stub(<i64 as crate::lex::Lex>::lex, crate::ast::field_expr::verif_kani::c04::i64_lex__contract)]
+        #[kani::stub(<std::net::IpAddr as crate::lex::Lex>::lex, crate::ast::field_expr::verif_kani::c04::ip_addr_lex__contract)]
+        #[kani::stub(<crate::rhs_types::IpRange as crate::lex::Lex>::lex, crate::ast::field_expr::verif_kani::c04::ip_range_lex__contract)]
+        #[kani::stub(<crate::rhs_types::BytesExpr as crate::lex::Lex>::lex, crate::ast::field_expr::verif_kani::c04::bytes_expr_lex__contract)]
+        #[kani::stub(crate::scheme::Scheme::get_list, crate::ast::field_expr::verif_kani::c04::scheme_get_list__no_lists)]
+        #[kani::stub(crate::types::lex_rhs_values, crate::ast::field_expr::verif_kani::c04::lex_rhs_values__contract)]
+        #[kani::stub(<crate::rhs_types::ListName as crate::lex::Lex>::lex, crate::ast::field_expr::verif_kani::c04::list_name_lex__contract)]
         #[kani::stub(<crate::ast::index_expr::IndexExpr as crate::types::GetType>::get_type, crate::ast::field_expr::verif_kani::common::index_expr_get_type__contract)]
         fn $name() {
             let scheme = scheme_of(&[($decl, false)], true);
@@ -237,9 +337,21 @@ macro_rules! cell {
                 LHS_TYPE = Some($eff);
             }
             let op: Option<ComparisonOp> = $op;
+            unsafe {
+                REC_LITERAL = None;
+            }
+            unsafe {
+                REC_SET = false;
+                LIST_NAME_PRESENT = false;
+            }
             let got = outcome(" ~ !", op.map(|op| (op, 1)), &scheme, $each, $eff);
             let want = if $admissible { Outcome::LiteralError } else { Outcome::Unsupported };
             assert!(got == want, "operator / left-type compatibility per the typing table");
+            let literal: Option<Type> = $literal;
+            let want_literal = if $admissible { literal } else { None };
+            assert!(unsafe { REC_LITERAL } == want_literal, "the literal is lexed as the type the table says");
+            // only an admissible `in` (without `$`) goes to the `{...}` set lexer
+            assert!(unsafe { REC_SET } == ($admissible && matches!(op, Some(Op::In))), "a set of literals after `in` only");
             kani::cover!(true, "cell decided");
             std::mem::forget(scheme);
         }
@@ -253,19 +365,19 @@ macro_rules! operator_matrix {
     ($row:ident, $decl:expr, $each:expr, $eff:expr, $in:expr, $ord:expr, $int:expr, $bytes:expr) => {
         pub(crate) mod $row {
             use super::*;
-            cell!(op_in, $decl, $each, $eff, Some(Op::In), $in);
-            cell!(op_eq, $decl, $each, $eff, Some(Op::Ordering(OrderingOp::Equal)), $ord);
-            cell!(op_ne, $decl, $each, $eff, Some(Op::Ordering(OrderingOp::NotEqual)), $ord);
-            cell!(op_ge, $decl, $each, $eff, Some(Op::Ordering(OrderingOp::GreaterThanEqual)), $ord);
-            cell!(op_le, $decl, $each, $eff, Some(Op::Ordering(OrderingOp::LessThanEqual)), $ord);
-            cell!(op_gt, $decl, $each, $eff, Some(Op::Ordering(OrderingOp::GreaterThan)), $ord);
-            cell!(op_lt, $decl, $each, $eff, Some(Op::Ordering(OrderingOp::LessThan)), $ord);
-            cell!(op_bitwise_and, $decl, $each, $eff, Some(Op::Int(IntOp::BitwiseAnd)), $int);
-            cell!(op_contains, $decl, $each, $eff, Some(Op::Bytes(BytesOp::Contains)), $bytes);
-            cell!(op_matches, $decl, $each, $eff, Some(Op::Bytes(BytesOp::Matches)), $bytes);
-            cell!(op_wildcard, $decl, $each, $eff, Some(Op::Bytes(BytesOp::Wildcard)), $bytes);
-            cell!(op_strict_wildcard, $decl, $each, $eff, Some(Op::Bytes(BytesOp::StrictWildcard)), $bytes);
-            cell!(op_none, $decl, $each, $eff, None, true);
+            cell!(op_in, $decl, $each, $eff, Some(Op::In), $in, None);
+            cell!(op_eq, $decl, $each, $eff, Some(Op::Ordering(OrderingOp::Equal)), $ord, Some($eff));
+            cell!(op_ne, $decl, $each, $eff, Some(Op::Ordering(OrderingOp::NotEqual)), $ord, Some($eff));
+            cell!(op_ge, $decl, $each, $eff, Some(Op::Ordering(OrderingOp::GreaterThanEqual)), $ord, Some($eff));
+            cell!(op_le, $decl, $each, $eff, Some(Op::Ordering(OrderingOp::LessThanEqual)), $ord, Some($eff));
+            cell!(op_gt, $decl, $each, $eff, Some(Op::Ordering(OrderingOp::GreaterThan)), $ord, Some($eff));
+            cell!(op_lt, $decl, $each, $eff, Some(Op::Ordering(OrderingOp::LessThan)), $ord, Some($eff));
+            cell!(op_bitwise_and, $decl, $each, $eff, Some(Op::Int(IntOp::BitwiseAnd)), $int, Some(Type::Int));
+            cell!(op_contains, $decl, $each, $eff, Some(Op::Bytes(BytesOp::Contains)), $bytes, Some(Type::Bytes));
+            cell!(op_matches, $decl, $each, $eff, Some(Op::Bytes(BytesOp::Matches)), $bytes, None);
+            cell!(op_wildcard, $decl, $each, $eff, Some(Op::Bytes(BytesOp::Wildcard)), $bytes, None);
+            cell!(op_strict_wildcard, $decl, $each, $eff, Some(Op::Bytes(BytesOp::StrictWildcard)), $bytes, None);
+            cell!(op_none, $decl, $each, $eff, None, true, None);
         }
     };
 }
@@ -292,6 +404,13 @@ macro_rules! bare_boolean {
         #[kani::stub(crate::rhs_types::regex::Regex::new, crate::ast::field_expr::verif_kani::c04::regex_new__must_not_be_reached)]
         #[kani::stub(std::mem::drop, crate::ast::field_expr::verif_kani::c04::mem_drop__leak)]
         #[kani::stub(<crate::ast::field_expr::ComparisonOp as crate::lex::Lex>::lex, crate::ast::field_expr::verif_kani::c04::comparison_op_lex__contract)]
+        #[kani::stub(<i64 as crate::lex::Lex>::lex, crate::ast::field_expr::verif_kani::c04::i64_lex__contract)]
+        #[kani::stub(<std::net::IpAddr as crate::lex::Lex>::lex, crate::ast::field_expr::verif_kani::c04::ip_addr_lex__contract)]
+        #[kani::stub(<crate::rhs_types::IpRange as crate::lex::Lex>::lex, crate::ast::field_expr::verif_kani::c04::ip_range_lex__contract)]
+        #[kani::stub(<crate::rhs_types::BytesExpr as crate::lex::Lex>::lex, crate::ast::field_expr::verif_kani::c04::bytes_expr_lex__contract)]
+        #[kani::stub(crate::scheme::Scheme::get_list, crate::ast::field_expr::verif_kani::c04::scheme_get_list__no_lists)]
+        #[kani::stub(crate::types::lex_rhs_values, crate::ast::field_expr::verif_kani::c04::lex_rhs_values__contract)]
+        #[kani::stub(<crate::rhs_types::ListName as crate::lex::Lex>::lex, crate::ast::field_expr::verif_kani::c04::list_name_lex__contract)]
         #[kani::stub(<crate::ast::index_expr::IndexExpr as crate::types::GetType>::get_type, crate::ast::field_expr::verif_kani::common::index_expr_get_type__contract)]
         fn $name() {
             let scheme = scheme_of(&[($decl, false)], true);
@@ -329,3 +448,35 @@ bare_boolean!(
     Outcome::Unsupported,
     Type::Array(Type::Array(Type::Bool.into()).into())
 );
+
+// ---------------------------------------------------------------------------
+// `in $name` when the scheme has no list for the left-hand type
+
+/// `f in $x` where no list is registered for f's type: UnsupportedOp naming that type.
+#[kani::proof]
+#[kani::unwind(4)]
+#[kani::solver(minisat)]
+#[kani::stub(crate::rhs_types::regex::Regex::new, crate::ast::field_expr::verif_kani::c04::regex_new__must_not_be_reached)]
+#[kani::stub(std::mem::drop, crate::ast::field_expr::verif_kani::c04::mem_drop__leak)]
+#[kani::stub(<crate::ast::field_expr::ComparisonOp as crate::lex::Lex>::lex, crate::ast::field_expr::verif_kani::c04::comparison_op_lex__contract)]
+#[kani::stub(<i64 as crate::lex::Lex>::lex, crate::ast::field_expr::verif_kani::c04::i64_lex__contract)]
+#[kani::stub(<std::net::IpAddr as crate::lex::Lex>::lex, crate::ast::field_expr::verif_kani::c04::ip_addr_lex__contract)]
+#[kani::stub(<crate::rhs_types::IpRange as crate::lex::Lex>::lex, crate::ast::field_expr::verif_kani::c04::ip_range_lex__contract)]
+#[kani::stub(<crate::rhs_types::BytesExpr as crate::lex::Lex>::lex, crate::ast::field_expr::verif_kani::c04::bytes_expr_lex__contract)]
+#[kani::stub(crate::scheme::Scheme::get_list, crate::ast::field_expr::verif_kani::c04::scheme_get_list__no_lists)]
+#[kani::stub(crate::types::lex_rhs_values, crate::ast::field_expr::verif_kani::c04::lex_rhs_values__contract)]
+#[kani::stub(<crate::rhs_types::ListName as crate::lex::Lex>::lex, crate::ast::field_expr::verif_kani::c04::list_name_lex__contract)]
+#[kani::stub(<crate::ast::index_expr::IndexExpr as crate::types::GetType>::get_type, crate::ast::field_expr::verif_kani::common::index_expr_get_type__contract)]
+fn in_list__no_list_for_the_type() {
+    let scheme = scheme_of(&[(Type::Int, false)], true);
+    unsafe {
+        LHS_TYPE = Some(Type::Int);
+        REC_SET = false;
+        LIST_NAME_PRESENT = true;
+    }
+    let got = outcome(" ~ $x", Some((Op::In, 1)), &scheme, false, Type::Int);
+    assert!(got == Outcome::Unsupported, "`in $list` needs a list registered for the left-hand type");
+    assert!(!unsafe { REC_SET });
+    kani::cover!(true, "case decided");
+    std::mem::forget(scheme);
+}
